@@ -1124,10 +1124,13 @@ func Retract(vm *VM, t Term, k Cont, env *Env) *Promise {
 		return Error(permissionError(operationModify, permissionTypeStaticProcedure, pi.Term(), env))
 	}
 
+	// The clauses to try are the ones that exist now (logical update view). By the time one of them is
+	// tried, other goals may have added or removed clauses of the same procedure, so the clause is
+	// looked up again and removed by identity, not by its position at the time of the call.
 	deleted := 0
 	ks := make([]func(context.Context) *Promise, len(u.clauses))
 	for i, c := range u.clauses {
-		i := i
+		i, c := i, c
 		// The variables of a stored clause are its own (see Clause).
 		cp, err := renamedCopy(c.raw, nil, nil)
 		if err != nil {
@@ -1136,7 +1139,14 @@ func Retract(vm *VM, t Term, k Cont, env *Env) *Promise {
 		raw := rulify(cp, nil)
 		ks[i] = func(_ context.Context) *Promise {
 			return Unify(vm, t, raw, func(env *Env) *Promise {
-				j := i - deleted
+				u, ok := vm.procedures[pi].(*userDefined)
+				if !ok {
+					return Bool(false) // The procedure has been abolished in the meantime.
+				}
+				j := u.clauses.indexOf(c, i-deleted)
+				if j < 0 {
+					return Bool(false) // The clause has been removed in the meantime.
+				}
 				u.clauses, u.clauses[len(u.clauses)-1] = append(u.clauses[:j], u.clauses[j+1:]...), clause{}
 				deleted++
 				return k(env)
